@@ -170,7 +170,8 @@ def classify(scn, viol):
     if scn.get("variant") == "core":
         pc = scn["core"]["ports"][0]
         from ..coregen import BURST
-        if pc.get("cd", "sys") != "sys" and (viol.get("blind_strobes") or [0])[0] > 0 and viol.get("upconverted"):
+        slow_user = scn.get("clocks", {}).get("usr0", {}).get("period", 0) * 2 > scn["core"]["clk_period_ps"]
+        if pc.get("cd", "sys") != "sys" and (viol.get("blind_strobes") or [0])[0] > 0 and viol.get("upconverted") and slow_user:
             return "cdc-upconv-write-lead"
         return None
     if viol.get("oracle") in ("wdata_not_valid_at_strobe", "wdata_sequence", "wdata_count", "final_image", "hang", "read_data") \
